@@ -401,7 +401,7 @@ func runC11(cfg *runCfg) error {
 		}
 		// "executing never changes the plan" is the property's own words: the snapshot comparison is
 		// part of the oracle (there is no model component in these cases)
-		c.Printf("Eval vm_compute in (%d%%nat, true, plans_unchanged %s %s && c11_holds %d [%s], @nil nat).\n", id,
+		c.Printf("Eval vm_compute in (\"%d\"%%string, true, plans_unchanged %s %s && c11_holds %d [%s], @nil nat).\n", id,
 			c.Strs(before), c.Strs(after), stray+stray2, strings.Join(reqs, "; "))
 		key, _ := json.Marshal(cs)
 		ncalls := 0
